@@ -133,6 +133,10 @@ def run(ctx):
     prng = random.Random(611 + ctx.seed)
     for _ in range(4 if ctx.quick else 30):
         recs.append(scenarios.run_spec(scenarios.correlated_longaxis(prng), max_steps=40))
+    for v in range(3):
+        for a in ("PaVeBaPartialGP-rect", "PaVeBaGP-IH"):
+            # the design that blocks another one is itself decided in the same pass (deterministic, valid history)
+            recs.append(scenarios.run_spec(scenarios.paveba_same_round_blocker(a, variant=v), max_steps=12))
     try:
         recs.append(run_probe(ctx))
     except Exception:
